@@ -23,16 +23,6 @@ var colScales = [][3]int{
 	{-340, -340, -340}, {-400, -400, -400}, {-60, 0, 0}, {0, 0, 500},
 }
 
-func sgn(x int) int {
-	switch {
-	case x > 0:
-		return 1
-	case x < 0:
-		return -1
-	}
-	return 0
-}
-
 func opSign(raw json.RawMessage, o *Out) {
 	var c struct {
 		A, B, C emb.P3
